@@ -296,6 +296,8 @@ impl<T> MutexIsh<T> {
     }
 
     pub fn locked<U>(&self, func: impl FnOnce(&mut T) -> U) -> U {
+        #[cfg(unimock_verif)]
+        crate::verif::yield_point("lock");
         let mut lock = self.inner.lock().unwrap();
         func(&mut *lock)
     }
@@ -310,6 +312,8 @@ impl<T> MutexIsh<T> {
     }
 
     pub fn locked<U>(&self, func: impl FnOnce(&mut T) -> U) -> U {
+        #[cfg(unimock_verif)]
+        crate::verif::yield_point("lock");
         let mut lock = self.inner.lock();
         func(&mut *lock)
     }
@@ -324,6 +328,8 @@ impl<T> MutexIsh<T> {
     }
 
     pub fn locked<U>(&self, func: impl FnOnce(&mut T) -> U) -> U {
+        #[cfg(unimock_verif)]
+        crate::verif::yield_point("lock");
         func(&mut self.inner.borrow_mut())
     }
 }
